@@ -94,7 +94,9 @@ pub fn run_case(_ctx: &Ctx, case: &Value, tag: usize, rep: &mut Report, mb: &mut
             let texts = vec![b"AB".to_vec(), b"AxB".to_vec()];
             let (words, eos, specials) = colliding_vocab(&mut rng, &texts);
             let n = words.len() as u32;
-            let Ok(w) = World::new(words, eos, false, None) else { rep.skip("world"); return; };
+            // canonical tokenizers too: forcing then looks at the token references possible at a position
+            let canonical = rng.chance(1, 2);
+            let Ok(w) = World::new(words, eos, canonical, None) else { rep.skip("world"); return; };
             let mut gen_ref = |rng: &mut Rng| -> (String, Vec<u32>) {
                 match rng.below(5) {
                     0 => {
@@ -109,6 +111,40 @@ pub fn run_case(_ctx: &Ctx, case: &Value, tag: usize, rep: &mut Report, mb: &mut
                     _ => { let a = rng.below(n as usize) as u32; let c = rng.below(n as usize) as u32; let mut ids = vec![a, c]; ids.sort(); ids.dedup(); (format!("<[{a},{c}]>"), ids) }
                 }
             };
+            if rng.chance(1, 2) {
+                // alternatives at one position where nothing but token references is possible: the position denotes the
+                // union, whatever the order of multi-id and single-id references, also after forced bytes were computed
+                let k = 2 + rng.below(3);
+                let alts: Vec<(String, Vec<u32>)> = (0..k).map(|_| gen_ref(&mut rng)).collect();
+                let g = Gram::Lark(format!("start: \"A\" ( {} ) \"B\"\n", alts.iter().map(|r| r.0.clone()).collect::<Vec<_>>().join(" | ")));
+                let repro = json!({"case": case, "grammar": g.to_json(), "canonical": canonical});
+                let mut m = w.matcher(&g);
+                if m.is_error() { rep.fail("oracle", "c19:reference-rejected", format!("grammar with alternative references rejected: {}", eng::err_class(&m.get_error().unwrap_or_default())), repro); return; }
+                rep.evaluations += 1;
+                if m.consume_token(b'A' as u32).is_err() { rep.skip("sep-rejected"); return; }
+                let mut exp: Vec<u32> = alts.iter().flat_map(|r| r.1.iter().copied()).collect();
+                exp.sort(); exp.dedup();
+                for round in 0..2 {
+                    if round == 1 { let _ = m.compute_ff_bytes(); }
+                    match eng::mask_of(&mut m) {
+                        Ok(got) if got == exp => {}
+                        Ok(got) => {
+                            let extra: Vec<&u32> = got.iter().filter(|t| !exp.contains(t)).take(6).collect();
+                            let missing: Vec<&u32> = exp.iter().filter(|t| !got.contains(t)).take(6).collect();
+                            rep.fail("oracle", "c19:reference-id-set", format!("alternatives {:?}{}: mask has extra {extra:?}, misses {missing:?} (vocab {n})", alts.iter().map(|r| r.0.clone()).collect::<Vec<_>>(), if round == 1 { " after compute_ff_bytes" } else { "" }), repro.clone());
+                            return;
+                        }
+                        Err(e) => { rep.fail("oracle", "c19:mask-at-reference", format!("alternatives: mask failed: {e}"), repro.clone()); return; }
+                    }
+                }
+                for &t in exp.iter().filter(|t| **t != w.eos).take(8) {
+                    let mut c = m.deep_clone();
+                    if c.consume_token(t).is_err() { rep.fail("oracle", "c19:reference-token-rejected", format!("alternatives: denoted token {t} rejected"), repro.clone()); return; }
+                }
+                rep.nontrivial(format!("multiref-alts|{}|{canonical}", alts.iter().map(|r| r.0.clone()).collect::<Vec<_>>().join(" ")));
+                rep.sample(json!({"kind": "multiref-alts", "refs": alts.iter().map(|r| r.0.clone()).collect::<Vec<_>>(), "canonical": canonical}));
+                return;
+            }
             let k = 2 + rng.below(3);
             let refs: Vec<(String, Vec<u32>)> = (0..k).map(|_| gen_ref(&mut rng)).collect();
             let alt = gen_ref(&mut rng);
@@ -209,6 +245,18 @@ pub fn run_case(_ctx: &Ctx, case: &Value, tag: usize, rep: &mut Report, mb: &mut
                 }
                 _ => ("<[*]>".to_string(), (0..n).collect()),
             };
+            // ids beyond the vocabulary denote nothing: such a reference must be refused when the grammar is built
+            for (hi, shape) in [(n, 0), (n, 1), (n, 2), (n + 1, 0), (n + 40, 1), (1_000_000, 2)] {
+                let bad = match shape { 0 => format!("<[{hi}]>"), 1 => format!("<[{}-{hi}]>", rng.below(n as usize)), _ => format!("<[3,{hi}]>") };
+                let gb = Gram::Lark(format!("start: \"A\" {bad} \"B\"\n"));
+                let mb_ = w.matcher(&gb);
+                rep.evaluations += 1;
+                if !mb_.is_error() {
+                    rep.fail("oracle", "c19:out-of-range-reference-accepted", format!("reference {bad} names an id beyond the vocabulary ({n} entries) and the grammar was accepted"), json!({"case": case, "reference": bad}));
+                    return;
+                }
+                rep.count("refs.out-of-range-refused");
+            }
             let g = Gram::Lark(format!("start: \"A\" {refsyn} \"B\"\n"));
             let mut m = w.matcher(&g);
             if m.is_error() {
